@@ -1,1 +1,571 @@
 //! Property-specific engine extensions for C04 (owned by the C04 check).
+//!
+//! * a small world: receiver R = node 0, senders = nodes 1.., every channel funded by a sender towards R;
+//! * registrations at R (`create_inbound_payment`, `create_inbound_payment_for_hash`, keysend preimages);
+//! * an adversarial *sender* that still only uses LDK's own send API, with explicit `RecipientOnionFields`;
+//! * mining with a chosen header timestamp (R's clock is the highest block time it has seen);
+//! * `RecvModel`, an independent reference model of the receive-side rules written from the documented
+//!   contracts (see the comments at each rule), used in lock-step by `bin/c04.rs`.
+
+use crate::sim::*;
+use crate::world::*;
+use bitcoin::hashes::{sha256, Hash};
+use lightning::events::Event;
+use lightning::ln::channelmanager::PaymentId;
+use lightning::ln::functional_test_utils::ConnectStyle;
+use lightning::ln::outbound_payment::{RecipientCustomTlvs, RecipientOnionFields, Retry};
+use lightning::routing::router::{PaymentParameters, RouteParameters};
+use lightning::types::payment::{PaymentHash, PaymentPreimage, PaymentSecret};
+use lightning::util::config::MaxDustHTLCExposure;
+use serde::{Deserialize, Serialize};
+use std::collections::{BTreeMap, BTreeSet};
+
+// -------------------------------------------------------------------------------------------------
+// documented constants, restated
+// -------------------------------------------------------------------------------------------------
+
+/// `chain::channelmonitor::HTLC_FAIL_BACK_BUFFER` (pub): CLTV_CLAIM_BUFFER (2 * MAX_BLOCKS_FOR_CONF = 36) +
+/// LATENCY_GRACE_PERIOD_BLOCKS (3). Documented: (1) an HTLC to us that expires within this many blocks
+/// while we wait for more parts or for the user's preimage is failed; (2) an HTLC received within this
+/// many blocks *plus one* of its expiry is failed without being shown to the user.
+pub const HTLC_FAIL_BACK_BUFFER: u32 = 39;
+/// Production value of the MPP timeout (`timer_tick_occurred` is documented as "roughly once per minute";
+/// BOLT-4 asks for at least 60 s). Builds with `_test_utils` use 1, so an incomplete set MAY be failed from
+/// the first tick on and MUST be failed after this many ticks.
+pub const MPP_TIMEOUT_TICKS_MAX: u8 = 3;
+/// Margin LDK adds to the registered expiry "to compensate for the inaccuracy of block header timestamps"
+/// (two hours, the consensus tolerance on header times).
+pub const EXPIRY_MARGIN_SECS: u64 = 7200;
+/// R is always node 0.
+pub const R: usize = 0;
+
+pub fn sha(b: &[u8]) -> [u8; 32] {
+	sha256::Hash::hash(b).to_byte_array()
+}
+
+// -------------------------------------------------------------------------------------------------
+// world
+// -------------------------------------------------------------------------------------------------
+
+#[derive(Clone, Debug, Serialize, Deserialize)]
+pub struct WSpec {
+	/// per channel: (sender index 0/1, channel value in sat); all channels are sender -> R
+	pub chans: Vec<(u8, u64)>,
+	pub anchors: bool,
+}
+
+pub fn build_world(spec: &WSpec) -> Sim {
+	let senders = spec.chans.iter().map(|(s, _)| *s as usize + 1).max().unwrap_or(1);
+	let n = 1 + senders;
+	let mut cfg = default_config();
+	cfg.channel_handshake_config.negotiate_anchors_zero_fee_htlc_tx = spec.anchors;
+	// dust exposure limits are a channel-level matter (C01/C02); keep them out of the way of small parts
+	cfg.channel_config.max_dust_htlc_exposure = MaxDustHTLCExposure::FixedLimitMsat(200_000_000);
+	let w = World::new(WorldCfg { n, configs: vec![cfg; n], keep_images: false, deferred_monitor: false, connect_style: ConnectStyle::BestBlockFirst, node_styles: vec![], disable_revocation_policy: vec![] });
+	for nd in w.nodes.iter() {
+		let mut ov = nd.fee_estimator.target_override.lock().unwrap();
+		ov.insert(lightning::chain::chaininterface::ConfirmationTarget::MinAllowedAnchorChannelRemoteFee, 253);
+		ov.insert(lightning::chain::chaininterface::ConfirmationTarget::MinAllowedNonAnchorChannelRemoteFee, 253);
+		ov.insert(lightning::chain::chaininterface::ConfirmationTarget::ChannelCloseMinimum, 253);
+	}
+	let mut sim = Sim::new(w);
+	if spec.anchors {
+		sim.fund_wallets(2);
+	}
+	for (s, v) in spec.chans.iter() {
+		// 25 % pushed to R so that R's balance is well above its reserve (1 %): R's outbound capacity then
+		// moves msat-exactly with its balance
+		sim.open_channel(1 + *s as usize, R, *v, *v * 250);
+	}
+	sim
+}
+
+/// R's clock before any block with a later header time: the manager is created with the genesis time.
+pub fn initial_time() -> u64 {
+	bitcoin::constants::genesis_block(bitcoin::Network::Testnet).header.time as u64
+}
+
+// -------------------------------------------------------------------------------------------------
+// registrations
+// -------------------------------------------------------------------------------------------------
+
+#[derive(Clone, Copy, Debug, Serialize, Deserialize, PartialEq, Eq)]
+pub enum RegKind {
+	/// `create_inbound_payment`: LDK derives hash and preimage
+	Ldk,
+	/// `create_inbound_payment_for_hash`: the user owns the preimage
+	ForHash,
+	/// nothing registered: the sender makes a spontaneous payment with its own preimage
+	Keysend,
+}
+
+#[derive(Clone, Debug, Serialize, Deserialize)]
+pub struct RegSpec {
+	pub kind: RegKind,
+	pub amt: Option<u64>,
+	pub expiry_secs: u32,
+	pub min_cltv: Option<u16>,
+	pub meta: Option<Vec<u8>>,
+	/// ForHash only: register the hash of the previous ForHash registration again (other amount / expiry)
+	pub reuse_prev_hash: bool,
+}
+
+#[derive(Clone, Debug)]
+pub struct RegInfo {
+	pub kind: RegKind,
+	pub hash: [u8; 32],
+	/// known to the harness-as-user (ForHash, Keysend) or read back through the API (Ldk)
+	pub preimage: [u8; 32],
+	pub secret: Option<[u8; 32]>,
+	pub min_amt: Option<u64>,
+	/// `registration time + expiry_secs + EXPIRY_MARGIN_SECS`: later header times make the secret invalid
+	pub expiry_abs: u64,
+	pub min_cltv: Option<u16>,
+	pub meta_plain: Option<Vec<u8>>,
+	/// what the API handed back for inclusion in the invoice (encrypted, for_hash: with IV appended)
+	pub meta_enc: Option<Vec<u8>>,
+}
+
+pub fn register(sim: &Sim, idx: usize, spec: &RegSpec, now: u64, prev: &[RegInfo]) -> Result<RegInfo, String> {
+	let node = sim.w.nodes[R].node;
+	let own_pre = sha(&[b"c04-preimage".as_slice(), &[idx as u8]].concat());
+	match spec.kind {
+		RegKind::Ldk => {
+			let (hash, secret, enc) = node.create_inbound_payment(spec.amt, spec.expiry_secs, spec.min_cltv, spec.meta.clone()).map_err(|_| "create_inbound_payment failed".to_string())?;
+			let mut m = enc.clone();
+			let pre = node.get_payment_preimage_decrypt_metadata(hash, secret, m.as_deref_mut()).map_err(|e| format!("get_payment_preimage on a fresh registration: {:?}", e))?;
+			Ok(RegInfo { kind: spec.kind, hash: hash.0, preimage: pre.0, secret: Some(secret.0), min_amt: spec.amt, expiry_abs: now + spec.expiry_secs as u64 + EXPIRY_MARGIN_SECS, min_cltv: spec.min_cltv, meta_plain: spec.meta.clone(), meta_enc: enc })
+		},
+		RegKind::ForHash => {
+			let pre = if spec.reuse_prev_hash { prev.iter().rev().find(|r| r.kind == RegKind::ForHash).map(|r| r.preimage).unwrap_or(own_pre) } else { own_pre };
+			let hash = sha(&pre);
+			let (secret, enc) = node.create_inbound_payment_for_hash(PaymentHash(hash), spec.amt, spec.expiry_secs, spec.min_cltv, spec.meta.clone()).map_err(|_| "create_inbound_payment_for_hash failed".to_string())?;
+			Ok(RegInfo { kind: spec.kind, hash, preimage: pre, secret: Some(secret.0), min_amt: spec.amt, expiry_abs: now + spec.expiry_secs as u64 + EXPIRY_MARGIN_SECS, min_cltv: spec.min_cltv, meta_plain: spec.meta.clone(), meta_enc: enc })
+		},
+		RegKind::Keysend => Ok(RegInfo { kind: spec.kind, hash: sha(&own_pre), preimage: own_pre, secret: None, min_amt: None, expiry_abs: u64::MAX, min_cltv: None, meta_plain: None, meta_enc: None }),
+	}
+}
+
+// -------------------------------------------------------------------------------------------------
+// sender and chain helpers
+// -------------------------------------------------------------------------------------------------
+
+/// Everything the sender puts into one HTLC.
+#[derive(Clone, Debug)]
+pub struct SendReq {
+	pub chan: usize,
+	pub hash: [u8; 32],
+	pub amt: u64,
+	/// cltv delta of the final hop; the HTLC expires at sender height + 1 + delta
+	pub final_delta: u32,
+	pub secret: Option<[u8; 32]>,
+	pub total: u64,
+	pub metadata: Option<Vec<u8>>,
+	pub tlvs: Vec<(u64, Vec<u8>)>,
+	pub keysend_preimage: Option<[u8; 32]>,
+}
+
+/// One HTLC as it appeared on the wire towards R plus the onion fields the sender put in.
+#[derive(Clone, Debug)]
+pub struct Part {
+	pub id: usize,
+	pub chan: usize,
+	pub htlc_id: u64,
+	pub hash: [u8; 32],
+	pub amt: u64,
+	pub cltv: u32,
+	pub secret: Option<[u8; 32]>,
+	pub total: u64,
+	pub metadata: Option<Vec<u8>>,
+	pub tlvs: Vec<(u64, Vec<u8>)>,
+	pub keysend: Option<[u8; 32]>,
+}
+
+impl Sim {
+	/// Mine one block with header time `time` containing `txs`, deliver it to every node.
+	/// (`ChainSim::mine` stamps blocks with their height; the header is rewritten before anybody sees it.)
+	pub fn c04_mine_at(&mut self, txs: Vec<bitcoin::Transaction>, time: u32) {
+		let _ = self.chain.mine(txs);
+		let blk = self.chain.blocks.last_mut().unwrap();
+		blk.header.time = time;
+		let block = blk.clone();
+		let height = self.chain.height();
+		self.rec(SEvent::Mined { height, txids: block.txdata.iter().map(|t| t.compute_txid()).collect() });
+		for i in 0..self.w.n {
+			self.deliver_block(i, &block);
+		}
+	}
+
+	/// Send one HTLC through the sender's own LDK (`send_payment_with_route` with a one-hop route, or
+	/// `send_spontaneous_payment` for keysend), then run the commitment dance on that channel so that the
+	/// HTLC is irrevocably committed at R. R does not process it yet. Returns the HTLC as seen on the wire.
+	pub fn c04_send(&mut self, r: &SendReq, part_id: usize) -> Result<Part, String> {
+		let from = self.chans[r.chan].a;
+		match self.chan_details(from, r.chan) {
+			Some(d) if d.is_usable => {},
+			_ => return Err("channel not usable".into()),
+		}
+		let idn = self.next_payment_id;
+		self.next_payment_id += 1;
+		let mut idb = [0u8; 32];
+		idb[..8].copy_from_slice(&idn.to_be_bytes());
+		let id = PaymentId(idb);
+		let mut onion = match r.secret {
+			Some(s) => RecipientOnionFields::secret_only(PaymentSecret(s), r.total),
+			None => RecipientOnionFields::spontaneous_empty(r.total),
+		};
+		onion.payment_metadata = r.metadata.clone();
+		let onion = onion.with_custom_tlvs(RecipientCustomTlvs::new(r.tlvs.clone()).map_err(|_| "custom tlvs rejected by RecipientCustomTlvs::new".to_string())?);
+		let mark = self.log.len();
+		let res = if let Some(pre) = r.keysend_preimage {
+			let payee = self.w.node_id(R);
+			let mut pp = PaymentParameters::for_keysend(payee, r.final_delta, false);
+			// no shadow CLTV offset: the generated delta is what goes on the wire
+			pp.max_total_cltv_expiry_delta = r.final_delta;
+			let mut rp = RouteParameters::from_payment_params_and_value(pp, r.amt);
+			rp.max_total_routing_fee_msat = None;
+			self.w.nodes[from].node.send_spontaneous_payment(Some(PaymentPreimage(pre)), onion, id, rp, Retry::Attempts(0)).map(|_| ()).map_err(|e| format!("{:?}", e))
+		} else {
+			let (route, _) = self.build_route(from, &[r.chan], r.amt, r.final_delta).ok_or("no route".to_string())?;
+			self.w.nodes[from].node.send_payment_with_route(route, PaymentHash(r.hash), onion, id).map_err(|e| format!("{:?}", e))
+		};
+		self.rec(SEvent::Api { node: from, what: format!("c04 send part#{} chan={} amt={} total={} delta={}", part_id, r.chan, r.amt, r.total, r.final_delta), ok: res.is_ok(), detail: format!("{:?}", res) });
+		self.w.nodes[from].chain_monitor.added_monitors.lock().unwrap().clear();
+		self.drain(from);
+		res?;
+		let mut found = None;
+		for (_, e) in self.log[mark..].iter() {
+			if let SEvent::Emit { from: f, to: R, wire: Wire::Add(m) } = e {
+				if *f == from && m.payment_hash.0 == r.hash {
+					found = Some(m.clone());
+				}
+			}
+		}
+		// the sender's API may have accepted the payment and failed the path right away (PaymentFailed event)
+		let m = found.ok_or("sender did not emit update_add_htlc".to_string())?;
+		let chan = self.chans.iter().position(|c| c.id == m.channel_id).ok_or("unknown channel")?;
+		for _ in 0..12 {
+			let a = self.queued(from, R);
+			let b = self.queued(R, from);
+			if a + b == 0 {
+				break;
+			}
+			while self.deliver(from, R, 1) > 0 {}
+			while self.deliver(R, from, 1) > 0 {}
+		}
+		self.w.trim();
+		Ok(Part { id: part_id, chan, htlc_id: m.htlc_id, hash: r.hash, amt: m.amount_msat, cltv: m.cltv_expiry, secret: r.secret, total: r.total, metadata: r.metadata.clone(), tlvs: onion_tlvs_sorted(&r.tlvs), keysend: r.keysend_preimage })
+	}
+
+	/// Let R (and everybody else) process pending HTLCs, deliver everything, handle events, until quiet.
+	/// Returns R's events in order.
+	pub fn c04_flush(&mut self) -> Vec<Event> {
+		let mut r_events = vec![];
+		for _ in 0..40 {
+			let mut progress = false;
+			for i in 0..self.w.n {
+				if self.w.nodes[i].node.needs_pending_htlc_processing() {
+					self.process_forwards(i);
+					progress = true;
+				}
+			}
+			for _ in 0..200 {
+				let live: Vec<(usize, usize)> = self.links.iter().filter(|(k, q)| !q.is_empty() && self.is_connected(k.0, k.1)).map(|(k, _)| *k).collect();
+				if live.is_empty() {
+					break;
+				}
+				for (f, t) in live {
+					if self.deliver(f, t, 1) > 0 {
+						progress = true;
+					}
+				}
+			}
+			for i in 0..self.w.n {
+				let evs = self.process_events(i);
+				if !evs.is_empty() {
+					progress = true;
+				}
+				if i == R {
+					r_events.extend(evs);
+				}
+			}
+			if !progress {
+				break;
+			}
+		}
+		self.w.trim();
+		r_events
+	}
+}
+
+pub fn onion_tlvs_sorted(t: &[(u64, Vec<u8>)]) -> Vec<(u64, Vec<u8>)> {
+	let mut v = t.to_vec();
+	v.sort_by_key(|(k, _)| *k);
+	v
+}
+
+// -------------------------------------------------------------------------------------------------
+// reference model of the receive side
+// -------------------------------------------------------------------------------------------------
+
+#[derive(Clone, Debug, PartialEq, Eq)]
+pub enum Purpose {
+	Invoice { secret: [u8; 32] },
+	Keysend { preimage: [u8; 32] },
+}
+
+#[derive(Clone, Debug, PartialEq, Eq)]
+pub struct Shown {
+	pub hash: [u8; 32],
+	pub amount: u64,
+	pub deadline: u32,
+	pub parts: Vec<usize>,
+	pub total: u64,
+	pub secret: Option<[u8; 32]>,
+	pub meta_plain: Option<Vec<u8>>,
+	pub tlvs: Vec<(u64, Vec<u8>)>,
+	pub keysend: bool,
+}
+
+#[derive(Clone, Debug)]
+pub struct PaySet {
+	pub purpose: Purpose,
+	pub secret: Option<[u8; 32]>,
+	pub meta_plain: Option<Vec<u8>>,
+	pub total: u64,
+	pub tlvs: Vec<(u64, Vec<u8>)>,
+	/// (part id, timer ticks seen)
+	pub parts: Vec<(usize, u8)>,
+	/// set when the completion condition was last met: amount announced to the user
+	pub shown: Option<Shown>,
+}
+
+#[derive(Clone, Debug, PartialEq, Eq)]
+pub enum Verdict {
+	/// failed back without being shown; the reason names the rule
+	Fail(&'static str),
+	Held,
+	Claimable(Shown),
+}
+
+#[derive(Clone, Debug)]
+pub struct RecvModel {
+	pub regs: Vec<RegInfo>,
+	pub parts: Vec<Part>,
+	pub sets: BTreeMap<[u8; 32], PaySet>,
+	/// parts R lost track of through a claim attempt on a set that had lost a part (see `on_claim`)
+	pub orphaned: BTreeSet<usize>,
+}
+
+#[derive(Clone, Debug, Default)]
+pub struct ClaimOutcome {
+	pub fulfilled: Vec<usize>,
+	pub failed: Vec<usize>,
+	pub orphaned: Vec<usize>,
+	pub shown: Option<Shown>,
+	pub what: &'static str,
+}
+
+impl RecvModel {
+	pub fn new() -> RecvModel {
+		RecvModel { regs: vec![], parts: vec![], sets: BTreeMap::new(), orphaned: BTreeSet::new() }
+	}
+
+	fn sum(&self, set: &PaySet) -> u64 {
+		set.parts.iter().map(|(p, _)| self.parts[*p].amt).sum()
+	}
+
+	/// R processes one committed HTLC at block height `height` with clock `now`.
+	pub fn on_part(&mut self, pid: usize, height: u32, now: u64) -> Verdict {
+		let p = self.parts[pid].clone();
+		// HTLC_FAIL_BACK_BUFFER rule (2): received within buffer + 1 blocks of its expiry => failed, not shown
+		if p.cltv <= height + HTLC_FAIL_BACK_BUFFER + 1 {
+			return Verdict::Fail("expiry-too-soon");
+		}
+		let (purpose, meta_plain) = if let Some(pre) = p.keysend {
+			// spontaneous payment: valid iff the preimage in the onion hashes to the payment hash; a payment secret
+			// in the onion is the sender's own and is not checked
+			if sha(&pre) != p.hash {
+				return Verdict::Fail("keysend-preimage-mismatch");
+			}
+			(Purpose::Keysend { preimage: pre }, p.metadata.clone())
+		} else {
+			let Some(secret) = p.secret else { return Verdict::Fail("no-payment-secret") };
+			// "A PaymentClaimable event will only be generated if the PaymentSecret matches a payment secret
+			// fetched via [create_inbound_payment(_for_hash)]": bit-exact, and for *this* hash
+			let Some(reg) = self.regs.iter().find(|r| r.secret == Some(secret) && r.hash == p.hash) else { return Verdict::Fail("secret-not-issued-for-hash") };
+			// "The returned secret commits to the payment_metadata"
+			if p.metadata != reg.meta_enc {
+				return Verdict::Fail("metadata-mismatch");
+			}
+			// "...and which is at least the min_value_msat provided" (judged on the announced total)
+			if let Some(min) = reg.min_amt {
+				if p.total < min {
+					return Verdict::Fail("total-below-registered-minimum");
+				}
+			}
+			// "After this many seconds [plus margin] ... any attempts to pay the invoice [fail]"
+			if now > reg.expiry_abs {
+				return Verdict::Fail("registration-expired");
+			}
+			if let Some(d) = reg.min_cltv {
+				if (p.cltv as u64) < height as u64 + d as u64 {
+					return Verdict::Fail("below-min-final-cltv");
+				}
+			}
+			(Purpose::Invoice { secret }, reg.meta_plain.clone())
+		};
+		let evens = |t: &Vec<(u64, Vec<u8>)>| -> Vec<(u64, Vec<u8>)> { t.iter().filter(|(k, _)| k % 2 == 0).cloned().collect() };
+		if let Some(set) = self.sets.get_mut(&p.hash) {
+			if set.purpose != purpose {
+				return Verdict::Fail("purpose-differs-from-pending-set");
+			}
+			// all parts must agree on secret, metadata, total and the even custom TLVs
+			if set.secret != p.secret || set.meta_plain != meta_plain || set.total != p.total || evens(&set.tlvs) != evens(&p.tlvs) {
+				return Verdict::Fail("onion-fields-disagree");
+			}
+			// odd TLVs that are not in every part are dropped from what the user is shown
+			set.tlvs.retain(|t| p.tlvs.contains(t));
+		} else {
+			if p.total == 0 {
+				// a set whose announced total is zero is "complete" before its first part: refused like any part
+				// beyond the total (the generator keeps this shape out unless asked, see bin/c04.rs)
+				return Verdict::Fail("zero-total");
+			}
+			self.sets.insert(p.hash, PaySet { purpose, secret: p.secret, meta_plain, total: p.total, tlvs: p.tlvs.clone(), parts: vec![], shown: None });
+		}
+		let before = self.sum(&self.sets[&p.hash]);
+		let set = self.sets.get_mut(&p.hash).unwrap();
+		if before >= set.total {
+			// the set already reached its total (the user has been told an amount): a further part is refused
+			return Verdict::Fail("set-already-complete");
+		}
+		set.parts.push((pid, 0));
+		if before + p.amt >= set.total {
+			let ids: Vec<usize> = set.parts.iter().map(|(i, _)| *i).collect();
+			let amount = before + p.amt;
+			let min_cltv = ids.iter().map(|i| self.parts[*i].cltv).min().unwrap();
+			let set = self.sets.get_mut(&p.hash).unwrap();
+			let shown = Shown { hash: p.hash, amount, deadline: min_cltv - HTLC_FAIL_BACK_BUFFER, parts: ids, total: set.total, secret: set.secret, meta_plain: set.meta_plain.clone(), tlvs: set.tlvs.clone(), keysend: matches!(set.purpose, Purpose::Keysend { .. }) };
+			set.shown = Some(shown.clone());
+			Verdict::Claimable(shown)
+		} else {
+			Verdict::Held
+		}
+	}
+
+	/// `timer_tick_occurred`. Returns per incomplete set (hash, part ids, must): `must` = the production
+	/// timeout has been reached, otherwise the library may (test builds do) already time it out.
+	pub fn on_tick(&mut self) -> Vec<([u8; 32], Vec<usize>, bool)> {
+		let mut out = vec![];
+		let hashes: Vec<[u8; 32]> = self.sets.keys().cloned().collect();
+		for h in hashes {
+			let sum = self.sum(&self.sets[&h]);
+			let set = self.sets.get_mut(&h).unwrap();
+			let mut maxt = 0;
+			for (_, t) in set.parts.iter_mut() {
+				*t = t.saturating_add(1);
+				maxt = maxt.max(*t);
+			}
+			if sum < set.total && !set.parts.is_empty() {
+				out.push((h, set.parts.iter().map(|(i, _)| *i).collect(), maxt >= MPP_TIMEOUT_TICKS_MAX));
+			}
+		}
+		out
+	}
+
+	pub fn drop_set(&mut self, h: &[u8; 32]) {
+		self.sets.remove(h);
+	}
+
+	/// A block at `height` was connected: rule (1) of HTLC_FAIL_BACK_BUFFER, per HTLC.
+	pub fn on_block(&mut self, height: u32) -> Vec<usize> {
+		let mut failed = vec![];
+		let hashes: Vec<[u8; 32]> = self.sets.keys().cloned().collect();
+		for h in hashes {
+			let parts = self.parts.clone();
+			let set = self.sets.get_mut(&h).unwrap();
+			set.parts.retain(|(i, _)| {
+				let out = height >= parts[*i].cltv - HTLC_FAIL_BACK_BUFFER;
+				if out {
+					failed.push(*i);
+				}
+				!out
+			});
+			if set.parts.is_empty() {
+				self.sets.remove(&h);
+			}
+		}
+		failed
+	}
+
+	/// `claim_funds(preimage)` / `claim_funds_with_known_custom_tlvs`.
+	pub fn on_claim(&mut self, hash: &[u8; 32], known_tlvs: bool) -> ClaimOutcome {
+		let Some(set) = self.sets.remove(hash) else { return ClaimOutcome { what: "nothing-claimable", ..Default::default() } };
+		let ids: Vec<usize> = set.parts.iter().map(|(i, _)| *i).collect();
+		// documented: claim_funds "will fail the payment if it has custom TLVs with even type numbers"
+		if !known_tlvs && set.tlvs.iter().any(|(k, _)| k % 2 == 0) {
+			return ClaimOutcome { failed: ids, what: "even-tlvs-unknown", ..Default::default() };
+		}
+		let sum: u64 = ids.iter().map(|i| self.parts[*i].amt).sum();
+		match &set.shown {
+			Some(sh) if sh.amount == sum && sh.parts == ids => ClaimOutcome { fulfilled: ids, shown: set.shown.clone(), what: "claimed", ..Default::default() },
+			_ => {
+				// a part of what was shown is gone (or nothing was ever shown): nothing is released. The library
+				// forgets the remaining HTLCs here; the documented fail-back rule still applies to them.
+				for i in ids.iter() {
+					self.orphaned.insert(*i);
+				}
+				ClaimOutcome { orphaned: ids, what: "incomplete-nothing-released", ..Default::default() }
+			},
+		}
+	}
+
+	pub fn on_fail_back(&mut self, hash: &[u8; 32]) -> Vec<usize> {
+		match self.sets.remove(hash) {
+			Some(set) => set.parts.iter().map(|(i, _)| *i).collect(),
+			None => vec![],
+		}
+	}
+
+	/// A part was failed by R for a reason outside this model (channel-level refusal): forget it.
+	pub fn forget_part(&mut self, pid: usize) {
+		let h = self.parts[pid].hash;
+		if let Some(set) = self.sets.get_mut(&h) {
+			set.parts.retain(|(i, _)| *i != pid);
+			if set.parts.is_empty() {
+				self.sets.remove(&h);
+			}
+		}
+	}
+
+	pub fn live_parts(&self) -> Vec<usize> {
+		let mut v: Vec<usize> = self.sets.values().flat_map(|s| s.parts.iter().map(|(i, _)| *i)).collect();
+		v.extend(self.orphaned.iter().cloned());
+		v.sort();
+		v
+	}
+}
+
+/// All orders in which `groups` (parts of one batch grouped by channel) can be processed: LDK keeps the
+/// HTLCs awaiting decoding in a hash map keyed by channel, so the order across channels is arbitrary while
+/// the order inside a channel is the commitment order.
+pub fn group_orders(groups: &[Vec<usize>]) -> Vec<Vec<usize>> {
+	fn rec(rest: &mut Vec<usize>, cur: &mut Vec<usize>, out: &mut Vec<Vec<usize>>) {
+		if rest.is_empty() {
+			out.push(cur.clone());
+			return;
+		}
+		for k in 0..rest.len() {
+			let g = rest.remove(k);
+			cur.push(g);
+			rec(rest, cur, out);
+			cur.pop();
+			rest.insert(k, g);
+		}
+	}
+	let mut idx: Vec<usize> = (0..groups.len()).collect();
+	let mut out = vec![];
+	rec(&mut idx, &mut vec![], &mut out);
+	out.into_iter().map(|order| order.into_iter().flat_map(|g| groups[g].iter().cloned()).collect()).collect()
+}
